@@ -4,8 +4,10 @@ import (
 	configapi "github.com/onosproject/onos-api/go/onos/config/v2"
 	"fmt"
 	"strings"
+	"sync"
 	"time"
 
+	liberrors "github.com/onosproject/onos-lib-go/pkg/errors"
 	"google.golang.org/grpc/codes"
 
 	"verif/engine"
@@ -37,9 +39,25 @@ func s2RunSteps(c *fw.Case, prop string, p *engine.Profile, steps []engine.Step)
 	if mode > 0 {
 		w.Delay = func(kind string) {
 			// schedule perturbation at decorated calls: a short sleep with probability 10% / 20%
-			if r.Intn(100) < 10*mode {
+			x := r.Intn(1000)
+			if x < 100*mode {
 				time.Sleep(time.Duration(50+r.Intn(300)) * time.Microsecond)
+			} else if x < 100*mode+8 {
+				time.Sleep(time.Duration(3+r.Intn(25)) * time.Millisecond) // a rare long stall: reorders whole reconcile runs
 			}
+		}
+	}
+	if p.PStoreFault > 0 {
+		fr := c.Rng.Fork("storefault")
+		var fmu sync.Mutex
+		w.StoreFault = func(kind string) error {
+			fmu.Lock()
+			defer fmu.Unlock()
+			if fr.Intn(1000) < p.PStoreFault {
+				c.Count("store_faults_injected", 1)
+				return liberrors.NewUnavailable("injected transient store fault at " + kind)
+			}
+			return nil
 		}
 	}
 	if steps == nil {
